@@ -10,6 +10,14 @@ void c17_scalar_stages (); // c17_scalar.cpp : abs sign cmp cmpt iszero equal cl
 void c17_roots_stages ();  // c17_roots.cpp  : solveLinear/Quadratic/NormalizedCubic/Cubic
 void c17_color_stages ();  // c17_color.cpp  : rgb2hsv hsv2rgb rgb2packed packed2rgb
 
+// c17_ub.cpp (the only TU built with -fsanitize=signed-integer-overflow,integer-divide-by-zero; see there)
+namespace c17ub {
+enum { ADD = 1, SUB = 2, MUL = 4, NEG = 8, DIVREM = 16 };
+unsigned take ();                        // returns and clears the kinds of signed overflow seen on this thread since the last take()
+int      call (int which, int x, int y); // 0 divs, 1 mods, 2 divp, 3 modp — the instrumented library code
+int      probe (int kind, int a, int b); // 0 a+b, 1 a-b, 2 a*b, 3 -a, 4 a/b — instrumentation self-check
+} // namespace c17ub
+
 namespace c17 {
 inline std::string hx32 (uint32_t v) { char b[16]; snprintf (b, sizeof b, "0x%08x", v); return b; }
 inline std::string hx64 (uint64_t v) { char b[24]; snprintf (b, sizeof b, "0x%016llx", (unsigned long long) v); return b; }
